@@ -21,6 +21,9 @@
                                                  a message type of the application dictionary (FIXT11.xml vs FIX50SP1/SP2)
     multiple_value_enum{tokens_declared}         reject(5,t): a multiple-value field whose space separated tokens are all
                                                  declared values is compared as one token (D13)
+  and, through the generator's position hint `ctx` (only part of the signature text):
+    defect_required_missing{accept,grptail}      a required member missing at the END of a group entry that is followed by
+                                                 another entry is not noticed (the walk restarts the member list at the delimiter)
 -/
 import Qfx.Model.Validate
 namespace Qfx.Validate
@@ -145,7 +148,8 @@ def obsCtx : Obs → String
     no_panic              the validator panicked
   plus the known-defect signatures of `knownSignature`.
 -/
-def monValid (app : VDict) (tr : Option VDict) (s : Settings) (k : Kind) (t : Nat) (m : PMsg) (o : Obs) : List String :=
+def monValid (app : VDict) (tr : Option VDict) (s : Settings) (k : Kind) (t : Nat) (m : PMsg) (o : Obs)
+    (ctx : String := "") : List String :=
   match o with
   | .panic => ["no_panic"]
   | _ =>
@@ -158,7 +162,7 @@ def monValid (app : VDict) (tr : Option VDict) (s : Settings) (k : Kind) (t : Na
         if !checks k t s then []
         else
           match o with
-          | .reject r => if expected k t r then [] else ["defect_" ++ k.name ++ "{" ++ obsCtx o ++ "}"]
-          | _ => ["defect_" ++ k.name ++ "{" ++ obsCtx o ++ "}"]
+          | .reject r => if expected k t r then [] else ["defect_" ++ k.name ++ "{" ++ obsCtx o ++ ctx ++ "}"]
+          | _ => ["defect_" ++ k.name ++ "{" ++ obsCtx o ++ ctx ++ "}"]
 
 end Qfx.Validate
